@@ -83,6 +83,16 @@ func runC19(c map[string]interface{}) []Event {
 			qf, qt = geom.Point{X: mid.X + (qf.X-mid.X)*eps, Y: mid.Y + (qf.Y-mid.Y)*eps}, geom.Point{X: mid.X + (qt.X-mid.X)*eps, Y: mid.Y + (qt.Y-mid.Y)*eps}
 			e["twinapart"] = qf != qt
 		}
+		// every third case: the finished network is first asked for the routes from the same start point to every node
+		// position (and back); the recorded answer is the one to the question that comes after them
+		if (len(arr(c["links"]))+len(pos)+int(seed()))%3 == 0 {
+			for _, p := range pos {
+				pp := geom.Point{X: float64(p[0]), Y: float64(p[1])}
+				net.ShortestRoute(qf, pp)
+				net.ShortestRoute(pp, qt)
+			}
+			e["warmed"] = true
+		}
 		r, dist, tm, _, _ := net.ShortestRoute(qf, qt)
 		ids := []interface{}{}
 		for _, piece := range r {
